@@ -41,6 +41,10 @@ def gen_nested_interrupt(rng: random.Random) -> dict:
                                      {"name": "after", "kind": "fn", "params": [["verdict", None]], "dataOuts": ["done"], "body": {"b": "tag", "t": "after"}}], "bound": []}
     if rng.random() < 0.4:
         inner["nodes"][1]["dataOuts"] = ["decision", "notes"]
+    if rng.random() < 0.5:
+        # an outer node that is ready in the very step in which the nested interrupt pauses
+        outer["nodes"].append({"name": "side", "kind": "fn", "params": [["x", None]], "dataOuts": ["s"], "body": {"b": "tag", "t": "side"}})
+        rng.shuffle(outer["nodes"])
     program = [inner, outer]
     for lvl in range(rng.choice([0, 0, 1, 1, 2])):
         program.append({"name": f"g{lvl + 2}", "nodes": [{"name": f"top{lvl}", "kind": "graph", "inner": lvl + 1}], "bound": []})
@@ -142,6 +146,16 @@ class C14(Prop):
             in_names = [dict(spec.get("inRen", [])).get(q[0], q[0]) for q in spec["params"]]
             if p["values"] is not None and [k for k, _ in p["values"]] != in_names:
                 return f"pause shows values under {[k for k, _ in p['values']]}, the interrupt's inputs are {in_names}"
+            # values computed before the pause are returned: every function node of the graph being run whose body completed in this run
+            # has its outputs in the paused result
+            top = len(case["program"]) - 1
+            have = {k for k, _ in o["values"]}
+            for n in case["program"][-1]["nodes"]:
+                if n["kind"] == "fn" and any(f == f"{top}:{n['name']}" for f, _ in o["calls"]):
+                    lost = [x for x in n.get("dataOuts", []) if x not in have]
+                    if lost:
+                        note = " (step sibling of a nested pause)" if case["nested"] and len(p["node"].split("/")) > 1 else ""
+                        return f"paused at {p['node']!r}: node {n['name']!r} ran in this run but its output {lost[0]!r} is not among the returned values" + note
             if case["nested"]:
                 want_path = [n["name"] for g in reversed(case["program"][1:]) for n in g["nodes"] if n["kind"] == "graph"]
                 if p["node"].split("/")[:-1] != want_path:
@@ -212,6 +226,8 @@ class C14(Prop):
                 "final": obs["rounds"][-1]["status"], "interrupts": len(interrupts_of(case["program"]))}
 
     def signature(self, case: dict, obs: Any, why: str) -> str:
+        if "(step sibling of a nested pause)" in why:
+            return "site:run_superstep_async/nested-pause-drops-step-siblings"      # one mechanism (known finding C14-F2), whatever the program
         return "case:" + canonical_hash({"program": case["program"], "values": case["values"]})
 
     def sample(self, case: dict, obs: Any) -> Any:
